@@ -2,21 +2,21 @@ import FeatherModel.Lemmas.TotalAnno
 import FeatherModel.Model.TotalCode
 
 /-!
-# C16 — `read_code`: panics only at the open sites, every guarded operation is silent, allocation requests are bounded
+# C16 — `read_code` (after e3534dd, 4853513, 6b80d4b, 8349742, 835fdd2): no panic at all, every guarded operation is
+silent, allocation requests are bounded by `max 65535 |input|`
 
-`openSites` = `start_pc + length` (1), the label counter (2), the StackMapTable offset (3), the element-value stack (5,
-through the type annotations of the Code attribute).
-
-All statements are `Spec openSites B …`: they also say that the `alloc` account stays below `B`.  Everything outside
-the second pass works for any `B ≥ 65535`; the two `Vec::with_capacity(n)` of the second pass are bounded by
-`2^31 - 1` here and by `65535` in `Lemmas/TotalPasses.lean` (where the two passes are related).
+All statements are `Spec openSites B …` with `openSites = []`: they also say that the `alloc` account stays below `B`.
+Everything outside the second pass works for any `B ≥ 65535` that also bounds the length of the unread input (the
+buffer of an unknown attribute grows with the bytes present); the two `Vec::with_capacity(n)` of the second pass are
+bounded by `2^31 - 1` here and by `65535` in `Lemmas/TotalPasses.lean` (where the two passes are related).
 -/
 
 namespace Total.Code
 
 open TM
 
-def openSites : List Nat := [Sites.labelsRange, Sites.labelsMaxId, Sites.frameOffset, Sites.stackElementValue]
+/-- the sites `read_code` can still panic at: none -/
+def openSites : List Nat := []
 
 variable {B : Nat}
 
@@ -42,8 +42,8 @@ theorem Labels.getOrCreateRange_spec (l : Labels) (a b : Nat) :
     Spec openSites B (l.getOrCreateRange a b) (fun _ => True) := by
   unfold Labels.getOrCreateRange
   refine Spec.bind (Labels.getOrCreate_spec l a) (fun l1 _ => ?_)
-  refine Spec.bind (Spec.addU16_mem (by decide)) (fun e _ => ?_)
-  exact Spec.weaken (Labels.getOrCreateExcl_spec l1 e) (fun _ _ => trivial)
+  refine Spec.bind (Spec.guard _) (fun _ _ => ?_)
+  exact Spec.weaken (Labels.getOrCreateExcl_spec l1 _) (fun _ _ => trivial)
 
 theorem Labels.tryGet_spec (l : Labels) (pc : Nat) : Spec openSites B (l.tryGet pc) (fun _ => True) := by
   unfold Labels.tryGet
@@ -514,86 +514,131 @@ theorem pass2_fuel (l : Labels) : ∀ (f1 f2 : Nat) (c : Cur), WF c → c.len - 
         | panic s => rfl
     · rfl
 
+theorem Spec.self {α : Type} {S : List Nat} {B : Nat} {m : TM α} {Q : α → Prop} (h : Spec S B m Q) :
+    Spec S B m (fun a => Q a ∧ ∃ st, (m st).1 = .ok a) := by
+  intro st
+  have h1 := h st
+  refine ⟨h1.1, ?_⟩
+  cases hr : (m st).1 with
+  | ok a => rw [hr] at h1; exact ⟨h1.2, st, hr⟩
+  | err => trivial
+  | panic s => rw [hr] at h1; exact h1.2
+
 /-! ## exception table and attributes -/
 
+/-- the unread input only shrinks -/
+abbrev Shrinks (s : Bytes) (r : Labels × Bytes) : Prop := r.2.length ≤ s.length
+
 theorem loopL_spec {body : Labels → Bytes → TM (Labels × Bytes)}
-    (h : ∀ l s, Spec openSites B (body l s) (fun _ => True)) :
-    ∀ n l s, Spec openSites B (loopL body n l s) (fun _ => True)
-  | 0, l, s => Spec.ret _ trivial
+    (h : ∀ l s, Spec openSites B (body l s) (Shrinks s)) :
+    ∀ n l s, Spec openSites B (loopL body n l s) (Shrinks s)
+  | 0, l, s => Spec.ret _ (Nat.le_refl _)
   | n + 1, l, s => by
     unfold loopL
-    exact Spec.bind (h l s) (fun ⟨l1, s1⟩ _ => loopL_spec h n l1 s1)
+    exact Spec.bind (h l s) (fun ⟨l1, s1⟩ h1 => Spec.weaken (loopL_spec h n l1 s1) (fun r hr => Nat.le_trans hr h1))
 
 theorem vecL_spec {body : Labels → Bytes → TM (Labels × Bytes)}
-    (h : ∀ l s, Spec openSites B (body l s) (fun _ => True)) {n : Nat} (hn : n ≤ B) (l : Labels) (s : Bytes) :
-    Spec openSites B (vecL body n l s) (fun _ => True) := by
+    (h : ∀ l s, Spec openSites B (body l s) (Shrinks s)) {n : Nat} (hn : n ≤ B) (l : Labels) (s : Bytes) :
+    Spec openSites B (vecL body n l s) (Shrinks s) := by
   unfold vecL
   exact Spec.bind (Spec.request hn) (fun _ _ => loopL_spec h n l s)
 
 theorem vec16L_spec (hB : 65535 ≤ B) {body : Labels → Bytes → TM (Labels × Bytes)}
-    (h : ∀ l s, Spec openSites B (body l s) (fun _ => True)) (l : Labels) (s : Bytes) :
-    Spec openSites B (vec16L body l s) (fun _ => True) := by
+    (h : ∀ l s, Spec openSites B (body l s) (Shrinks s)) (l : Labels) (s : Bytes) :
+    Spec openSites B (vec16L body l s) (Shrinks s) := by
   unfold vec16L
-  exact Spec.bind (Spec.u16 s) (fun ⟨n, s1⟩ hn => vecL_spec h (Nat.le_trans hn.2 hB) l s1)
+  refine Spec.bind (Spec.u16 s) (fun ⟨n, s1⟩ hn => ?_)
+  exact Spec.weaken (vecL_spec h (Nat.le_trans hn.2 hB) l s1) (fun r hr => by
+    have h1 : s.length = s1.length + 2 := hn.1
+    have h2 : r.2.length ≤ s1.length := hr
+    show r.2.length ≤ s.length
+    omega)
 
-theorem readException_spec (l : Labels) (s : Bytes) : Spec openSites B (readException l s) (fun _ => True) := by
-  unfold readException; pin
+/-- closes the `Shrinks` goals `pin` leaves behind -/
+macro "shrinks" : tactic => `(tactic| all_goals (simp only [Shrinks] at *; omega))
 
-theorem readVType_spec (l : Labels) (s : Bytes) : Spec openSites B (readVType l s) (fun _ => True) := by
-  unfold readVType; pin
+theorem readException_spec (l : Labels) (s : Bytes) : Spec openSites B (readException l s) (Shrinks s) := by
+  unfold readException; pin; shrinks
+
+theorem readVType_spec (l : Labels) (s : Bytes) : Spec openSites B (readVType l s) (Shrinks s) := by
+  unfold readVType; pin; shrinks
 
 /-- `read_stack_map_frame`: the three `u8` subtractions (sites 27, 28, 29) are silent inside their match arms -/
-theorem readFrame_spec (hB : 65535 ≤ B) (l : Labels) (s : Bytes) : Spec openSites B (readFrame l s) (fun _ => True) := by
+theorem readFrame_spec (hB : 65535 ≤ B) (l : Labels) (s : Bytes) :
+    Spec openSites B (readFrame l s) (fun r => r.2.2.length ≤ s.length) := by
   unfold readFrame
-  refine Spec.bind (Spec.u8 s) (fun ⟨t, s1⟩ _ => ?_)
+  refine Spec.bind (Spec.u8 s) (fun ⟨t, s1⟩ h1 => ?_)
+  have e1 : s.length = s1.length + 1 := h1.1
   dsimp only
   split
-  · exact Spec.ret _ trivial
+  · exact Spec.ret _ (by show s1.length ≤ s.length; omega)
   · split
     · refine Spec.bind (Spec.subU_le (by omega)) (fun _ _ => ?_)
-      exact Spec.bind (readVType_spec l s1) (fun ⟨_, _⟩ _ => Spec.ret _ trivial)
+      exact Spec.bind (readVType_spec l s1) (fun ⟨_, s2⟩ h2 => Spec.ret _ (by
+        have : s2.length ≤ s1.length := h2
+        show s2.length ≤ s.length; omega))
     · split
       · exact Spec.fail
       · split
-        · refine Spec.bind (Spec.u16 s1) (fun ⟨_, s2⟩ _ => ?_)
-          exact Spec.bind (readVType_spec l s2) (fun ⟨_, _⟩ _ => Spec.ret _ trivial)
+        · refine Spec.bind (Spec.u16 s1) (fun ⟨_, s2⟩ h2 => ?_)
+          have e2 : s1.length = s2.length + 2 := h2.1
+          exact Spec.bind (readVType_spec l s2) (fun ⟨_, s3⟩ h3 => Spec.ret _ (by
+            have : s3.length ≤ s2.length := h3
+            show s3.length ≤ s.length; omega))
         · split
-          · refine Spec.bind (Spec.u16 s1) (fun ⟨_, s2⟩ _ => ?_)
-            exact Spec.bind (Spec.subU_le (by omega)) (fun _ _ => Spec.ret _ trivial)
+          · refine Spec.bind (Spec.u16 s1) (fun ⟨_, s2⟩ h2 => ?_)
+            have e2 : s1.length = s2.length + 2 := h2.1
+            exact Spec.bind (Spec.subU_le (by omega)) (fun _ _ => Spec.ret _ (by show s2.length ≤ s.length; omega))
           · split
-            · exact Spec.bind (Spec.u16 s1) (fun ⟨_, s2⟩ _ => Spec.ret _ trivial)
+            · refine Spec.bind (Spec.u16 s1) (fun ⟨_, s2⟩ h2 => Spec.ret _ ?_)
+              have e2 : s1.length = s2.length + 2 := h2.1
+              show s2.length ≤ s.length; omega
             · split
-              · refine Spec.bind (Spec.u16 s1) (fun ⟨_, s2⟩ _ => ?_)
+              · refine Spec.bind (Spec.u16 s1) (fun ⟨_, s2⟩ h2 => ?_)
+                have e2 : s1.length = s2.length + 2 := h2.1
                 refine Spec.bind (Spec.subU_le (by omega)) (fun k hk => ?_)
                 have hk' : k = t - 251 := hk
-                exact Spec.bind (vecL_spec readVType_spec (by omega) l s2) (fun ⟨_, _⟩ _ => Spec.ret _ trivial)
-              · refine Spec.bind (Spec.u16 s1) (fun ⟨_, s2⟩ _ => ?_)
-                refine Spec.bind (vec16L_spec hB readVType_spec l s2) (fun ⟨l1, s3⟩ _ => ?_)
-                exact Spec.bind (vec16L_spec hB readVType_spec l1 s3) (fun ⟨_, _⟩ _ => Spec.ret _ trivial)
+                exact Spec.bind (vecL_spec readVType_spec (by omega) l s2) (fun ⟨_, s3⟩ h3 => Spec.ret _ (by
+                  have : s3.length ≤ s2.length := h3
+                  show s3.length ≤ s.length; omega))
+              · refine Spec.bind (Spec.u16 s1) (fun ⟨_, s2⟩ h2 => ?_)
+                have e2 : s1.length = s2.length + 2 := h2.1
+                refine Spec.bind (vec16L_spec hB readVType_spec l s2) (fun ⟨l1, s3⟩ h3 => ?_)
+                exact Spec.bind (vec16L_spec hB readVType_spec l1 s3) (fun ⟨_, s4⟩ h4 => Spec.ret _ (by
+                  have : s3.length ≤ s2.length := h3
+                  have : s4.length ≤ s3.length := h4
+                  show s4.length ≤ s.length; omega))
 
 theorem readFrames_spec (hB : 65535 ≤ B) : ∀ (n : Nat) (first : Bool) (offset : Nat) (l : Labels) (s : Bytes),
-    Spec openSites B (readFrames n first offset l s) (fun _ => True)
-  | 0, _, _, l, s => Spec.ret _ trivial
+    Spec openSites B (readFrames n first offset l s) (Shrinks s)
+  | 0, _, _, l, s => Spec.ret _ (Nat.le_refl _)
   | n + 1, first, offset, l, s => by
     unfold readFrames
-    refine Spec.bind (readFrame_spec hB l s) (fun ⟨delta, l1, s1⟩ _ => ?_)
-    refine Spec.bind (Spec.addU16_mem (by decide)) (fun step _ => ?_)
-    refine Spec.bind (Spec.addU16_mem (by decide)) (fun off _ => ?_)
-    refine Spec.bind (Labels.getOrCreate_spec l1 off) (fun l2 _ => ?_)
-    exact readFrames_spec hB n false off l2 s1
+    refine Spec.bind (readFrame_spec hB l s) (fun ⟨delta, l1, s1⟩ h1 => ?_)
+    refine Spec.bind (Spec.guard _) (fun _ _ => ?_)
+    refine Spec.bind (Spec.guard _) (fun _ _ => ?_)
+    dsimp only
+    refine Spec.bind (Labels.getOrCreate_spec l1 _) (fun l2 _ => ?_)
+    exact Spec.weaken (readFrames_spec hB n false _ l2 s1) (fun r hr => Nat.le_trans hr h1)
 
-theorem readCldcFrame_spec (hB : 65535 ≤ B) (l : Labels) (s : Bytes) : Spec openSites B (readCldcFrame l s) (fun _ => True) := by
+theorem readCldcFrame_spec (hB : 65535 ≤ B) (l : Labels) (s : Bytes) :
+    Spec openSites B (readCldcFrame l s) (fun r => r.2.2.length ≤ s.length) := by
   unfold readCldcFrame
-  refine Spec.bind (Spec.u16 s) (fun ⟨off, s1⟩ _ => ?_)
-  refine Spec.bind (vec16L_spec hB readVType_spec l s1) (fun ⟨l1, s2⟩ _ => ?_)
-  exact Spec.bind (vec16L_spec hB readVType_spec l1 s2) (fun ⟨l2, s3⟩ _ => Spec.ret _ trivial)
+  refine Spec.bind (Spec.u16 s) (fun ⟨off, s1⟩ h1 => ?_)
+  have e1 : s.length = s1.length + 2 := h1.1
+  refine Spec.bind (vec16L_spec hB readVType_spec l s1) (fun ⟨l1, s2⟩ h2 => ?_)
+  exact Spec.bind (vec16L_spec hB readVType_spec l1 s2) (fun ⟨l2, s3⟩ h3 => Spec.ret _ (by
+    have : s2.length ≤ s1.length := h2
+    have : s3.length ≤ s2.length := h3
+    show s3.length ≤ s.length; omega))
 
 theorem readCldcFrames_spec (hB : 65535 ≤ B) : ∀ (n : Nat) (l : Labels) (acc : List Nat) (s : Bytes),
-    Spec openSites B (readCldcFrames n l acc s) (fun _ => True)
-  | 0, l, acc, s => Spec.ret _ trivial
+    Spec openSites B (readCldcFrames n l acc s) (fun r => r.2.2.length ≤ s.length)
+  | 0, l, acc, s => Spec.ret _ (Nat.le_refl _)
   | n + 1, l, acc, s => by
     unfold readCldcFrames
-    exact Spec.bind (readCldcFrame_spec hB l s) (fun ⟨o, l1, s1⟩ _ => readCldcFrames_spec hB n l1 (o :: acc) s1)
+    exact Spec.bind (readCldcFrame_spec hB l s) (fun ⟨o, l1, s1⟩ h1 =>
+      Spec.weaken (readCldcFrames_spec hB n l1 (o :: acc) s1) (fun r hr => Nat.le_trans hr h1))
 
 theorem createAll_spec : ∀ (os : List Nat) (l : Labels), Spec openSites B (createAll os l) (fun _ => True)
   | [], l => Spec.ret _ trivial
@@ -601,114 +646,163 @@ theorem createAll_spec : ∀ (os : List Nat) (l : Labels), Spec openSites B (cre
     unfold createAll
     exact Spec.bind (Labels.getOrCreate_spec l o) (fun l1 _ => createAll_spec os l1)
 
-theorem readLine_spec (l : Labels) (s : Bytes) : Spec openSites B (readLine l s) (fun _ => True) := by
-  unfold readLine; pin
+theorem readLine_spec (l : Labels) (s : Bytes) : Spec openSites B (readLine l s) (Shrinks s) := by
+  unfold readLine; pin; shrinks
 
-theorem readLv_spec (l : Labels) (s : Bytes) : Spec openSites B (readLv l s) (fun _ => True) := by
-  unfold readLv; pin
+theorem readLv_spec (l : Labels) (s : Bytes) : Spec openSites B (readLv l s) (Shrinks s) := by
+  unfold readLv; pin; shrinks
 
-theorem readLvTarget_spec (l : Labels) (s : Bytes) : Spec openSites B (readLvTarget l s) (fun _ => True) := by
-  unfold readLvTarget; pin
+theorem readLvTarget_spec (l : Labels) (s : Bytes) : Spec openSites B (readLvTarget l s) (Shrinks s) := by
+  unfold readLvTarget; pin; shrinks
 
-theorem readTargetCode_spec (l : Labels) (s : Bytes) : Spec openSites B (readTargetCode l s) (fun _ => True) := by
+theorem readTargetCode_spec (l : Labels) (s : Bytes) : Spec openSites B (readTargetCode l s) (Shrinks s) := by
   unfold readTargetCode
-  refine Spec.bind (Spec.u8 s) (fun ⟨t, s1⟩ _ => ?_)
+  refine Spec.bind (Spec.u8 s) (fun ⟨t, s1⟩ h1 => ?_)
+  have e1 : s.length = s1.length + 1 := h1.1
   dsimp only
   split
-  · exact Spec.bind (Spec.u16 s1) (fun ⟨n, s2⟩ _ => loopL_spec readLvTarget_spec n l s2)
-  · pin
+  · refine Spec.bind (Spec.u16 s1) (fun ⟨n, s2⟩ h2 => ?_)
+    have e2 : s1.length = s2.length + 2 := h2.1
+    exact Spec.weaken (loopL_spec readLvTarget_spec n l s2) (fun r hr => by
+      have : r.2.length ≤ s2.length := hr
+      show r.2.length ≤ s.length; omega)
+  · pin; shrinks
 
 /-- the inner `match kind { 0 | 1 | 2 => …, _ => unreachable!() }` (site 32) -/
-theorem readTypePathEntry_spec (s : Bytes) : Spec openSites B (readTypePathEntry s) (fun _ => True) := by
+theorem readTypePathEntry_spec (s : Bytes) : Spec openSites B (readTypePathEntry s) (fun r => r.2.length ≤ s.length) := by
   unfold readTypePathEntry
-  refine Spec.bind (Spec.u8 s) (fun ⟨kind, s1⟩ _ => ?_)
-  refine Spec.bind (Spec.u8 s1) (fun ⟨arg, s2⟩ _ => ?_)
+  refine Spec.bind (Spec.u8 s) (fun ⟨kind, s1⟩ h1 => ?_)
+  refine Spec.bind (Spec.u8 s1) (fun ⟨arg, s2⟩ h2 => ?_)
+  have e : s2.length ≤ s.length := by have := h1.1; have := h2.1; simp only at *; omega
   dsimp only
   split
   · rename_i h
     refine Spec.bind (Spec.check_true ?_) (fun _ _ => ?_)
     · have : kind = 0 ∨ kind = 1 ∨ kind = 2 := by omega
       rcases this with h | h | h <;> subst h <;> rfl
-    · exact Spec.bind (Spec.guard _) (fun _ _ => Spec.ret _ trivial)
+    · exact Spec.bind (Spec.guard _) (fun _ _ => Spec.ret _ e)
   · split
-    · exact Spec.ret _ trivial
+    · exact Spec.ret _ e
     · exact Spec.fail
 
-theorem readTypePath_spec (s : Bytes) : Spec openSites B (readTypePath s) (fun _ => True) := by
+theorem readTypePath_spec (s : Bytes) : Spec openSites B (readTypePath s) (fun r => r.2.length ≤ s.length) := by
   unfold readTypePath
-  exact Spec.bind (Spec.u8 s) (fun ⟨n, s1⟩ _ => Spec.loopN readTypePathEntry_spec n s1)
+  refine Spec.bind (Spec.u8 s) (fun ⟨n, s1⟩ h1 => ?_)
+  exact Spec.weaken (Spec.loopN readTypePathEntry_spec n s1) (fun r hr => by
+    have e1 : s.length = s1.length + 1 := h1.1
+    have : r.2.length ≤ s1.length := hr
+    omega)
 
-theorem readTypeAnno_spec (l : Labels) (s : Bytes) : Spec openSites B (readTypeAnno l s) (fun _ => True) := by
+theorem readTypeAnno_spec (l : Labels) (s : Bytes) : Spec openSites B (readTypeAnno l s) (Shrinks s) := by
   unfold readTypeAnno
-  refine Spec.bind (readTargetCode_spec l s) (fun ⟨l1, s1⟩ _ => ?_)
-  refine Spec.bind (readTypePath_spec s1) (fun ⟨_, s2⟩ _ => ?_)
-  refine Spec.bind (Spec.u16 s2) (fun ⟨d, s3⟩ _ => ?_)
+  refine Spec.bind (readTargetCode_spec l s) (fun ⟨l1, s1⟩ h1 => ?_)
+  refine Spec.bind (readTypePath_spec s1) (fun ⟨_, s2⟩ h2 => ?_)
+  refine Spec.bind (Spec.u16 s2) (fun ⟨d, s3⟩ h3 => ?_)
   refine Spec.bind (Spec.guard _) (fun _ _ => ?_)
-  exact Spec.bind (Anno.readPairs_spec (by decide) _ s3) (fun ⟨_, _⟩ _ => Spec.ret _ trivial)
+  exact Spec.bind (Anno.readPairs_spec s3) (fun ⟨_, s4⟩ h4 => Spec.ret _ (by
+    have : s1.length ≤ s.length := h1
+    have : s2.length ≤ s1.length := h2
+    have : s2.length = s3.length + 2 := h3.1
+    have : s4.length ≤ s3.length := h4
+    show s4.length ≤ s.length; omega))
 
-theorem readCodeAttr_spec (hB : 65535 ≤ B) (st : AttrState) (s : Bytes) :
-    Spec openSites B (readCodeAttr st s) (fun _ => True) := by
+/-- one attribute of the Code attribute; `hs`: the bound also covers the bytes still unread (the buffer of an unknown
+attribute holds at most those) -/
+theorem readCodeAttr_spec (hB : 65535 ≤ B) (st : AttrState) (s : Bytes) (hs : s.length ≤ B) :
+    Spec openSites B (readCodeAttr st s) (fun r => r.2.length ≤ s.length) := by
   unfold readCodeAttr
-  refine Spec.bind (Spec.u16 s) (fun ⟨ni, s1⟩ _ => ?_)
+  refine Spec.bind (Spec.u16 s) (fun ⟨ni, s1⟩ h1 => ?_)
+  have e1 : s.length = s1.length + 2 := h1.1
   refine Spec.bind (Spec.ofOption _) (fun name _ => ?_)
-  refine Spec.bind (Spec.u32 s1) (fun ⟨length, s2⟩ _ => ?_)
+  refine Spec.bind (Spec.u32 s1) (fun ⟨length, s2⟩ h2 => ?_)
+  have e2 : s1.length = s2.length + 4 := h2.1
   dsimp only
   split
   · refine Spec.bind (Spec.u16 s2) (fun ⟨n, s3⟩ hn => ?_)
+    have e3 : s2.length = s3.length + 2 := hn.1
     refine Spec.bind (Spec.request (Nat.le_trans hn.2 hB)) (fun _ _ => ?_)
-    refine Spec.bind (readFrames_spec hB n true 0 st.labels s3) (fun ⟨l, s4⟩ _ => ?_)
-    exact Spec.bind (Spec.guard _) (fun _ _ => Spec.ret _ trivial)
+    refine Spec.bind (readFrames_spec hB n true 0 st.labels s3) (fun ⟨l, s4⟩ h4 => ?_)
+    exact Spec.bind (Spec.guard _) (fun _ _ => Spec.ret _ (by
+      have : s4.length ≤ s3.length := h4
+      show s4.length ≤ s.length; omega))
   · split
     · refine Spec.bind (Spec.u16 s2) (fun ⟨n, s3⟩ hn => ?_)
+      have e3 : s2.length = s3.length + 2 := hn.1
       refine Spec.bind (Spec.request (Nat.le_trans hn.2 hB)) (fun _ _ => ?_)
-      refine Spec.bind (readCldcFrames_spec hB n st.labels [] s3) (fun ⟨l, offsets, s4⟩ _ => ?_)
+      refine Spec.bind (readCldcFrames_spec hB n st.labels [] s3) (fun ⟨l, offsets, s4⟩ h4 => ?_)
       refine Spec.bind (createAll_spec _ l) (fun l2 _ => ?_)
-      exact Spec.bind (Spec.guard _) (fun _ _ => Spec.ret _ trivial)
+      exact Spec.bind (Spec.guard _) (fun _ _ => Spec.ret _ (by
+        have : s4.length ≤ s3.length := h4
+        show s4.length ≤ s.length; omega))
     · split
-      · refine Spec.bind (Spec.u16 s2) (fun ⟨n, s3⟩ _ => ?_)
-        exact Spec.bind (loopL_spec readLine_spec n st.labels s3) (fun ⟨_, _⟩ _ => Spec.ret _ trivial)
+      · refine Spec.bind (Spec.u16 s2) (fun ⟨n, s3⟩ hn => ?_)
+        have e3 : s2.length = s3.length + 2 := hn.1
+        exact Spec.bind (loopL_spec readLine_spec n st.labels s3) (fun ⟨_, s4⟩ h4 => Spec.ret _ (by
+          have : s4.length ≤ s3.length := h4
+          show s4.length ≤ s.length; omega))
       · split
-        · refine Spec.bind (Spec.u16 s2) (fun ⟨n, s3⟩ _ => ?_)
-          exact Spec.bind (loopL_spec readLv_spec n st.labels s3) (fun ⟨_, _⟩ _ => Spec.ret _ trivial)
+        · refine Spec.bind (Spec.u16 s2) (fun ⟨n, s3⟩ hn => ?_)
+          have e3 : s2.length = s3.length + 2 := hn.1
+          exact Spec.bind (loopL_spec readLv_spec n st.labels s3) (fun ⟨_, s4⟩ h4 => Spec.ret _ (by
+            have : s4.length ≤ s3.length := h4
+            show s4.length ≤ s.length; omega))
         · split
-          · refine Spec.bind (Spec.u16 s2) (fun ⟨n, s3⟩ _ => ?_)
-            exact Spec.bind (loopL_spec readTypeAnno_spec n st.labels s3) (fun ⟨_, _⟩ _ => Spec.ret _ trivial)
-          · exact Spec.bind (Spec.takeVecBig length s2) (fun ⟨_, _⟩ _ => Spec.ret _ trivial)
+          · refine Spec.bind (Spec.u16 s2) (fun ⟨n, s3⟩ hn => ?_)
+            have e3 : s2.length = s3.length + 2 := hn.1
+            exact Spec.bind (loopL_spec readTypeAnno_spec n st.labels s3) (fun ⟨_, s4⟩ h4 => Spec.ret _ (by
+              have : s4.length ≤ s3.length := h4
+              show s4.length ≤ s.length; omega))
+          · exact Spec.bind (Spec.takeVec s2 (Or.inr (by omega))) (fun ⟨_, s3⟩ h3 => Spec.ret _ (by
+              have : s3.length ≤ s2.length := h3.2
+              show s3.length ≤ s.length; omega))
 
-theorem readCodeAttrs_spec (hB : 65535 ≤ B) : ∀ (n : Nat) (st : AttrState) (s : Bytes),
+theorem readCodeAttrs_spec (hB : 65535 ≤ B) : ∀ (n : Nat) (st : AttrState) (s : Bytes), s.length ≤ B →
     Spec openSites B (readCodeAttrs n st s) (fun _ => True)
-  | 0, st, s => Spec.ret _ trivial
-  | n + 1, st, s => by
+  | 0, st, s, _ => Spec.ret _ trivial
+  | n + 1, st, s, hs => by
     unfold readCodeAttrs
-    exact Spec.bind (readCodeAttr_spec hB st s) (fun ⟨st1, s1⟩ _ => readCodeAttrs_spec hB n st1 s1)
+    exact Spec.bind (readCodeAttr_spec hB st s hs) (fun ⟨st1, s1⟩ h1 =>
+      readCodeAttrs_spec hB n st1 s1 (Nat.le_trans h1 hs))
 
 theorem Labels.new_spec (hB : 65535 ≤ B) {n : Nat} (hn : n ≤ 65535) : Spec openSites B (Labels.new n) (fun _ => True) := by
   unfold Labels.new
   exact Spec.bind (Spec.request (by omega)) (fun _ _ => Spec.ret _ trivial)
 
-/-- `read_code`: panics only at the open sites; `alloc` stays below `B` -/
-theorem readCode_spec (hB : 2147483647 ≤ B) (s : Bytes) : Spec openSites B (readCode s) (fun _ => True) := by
-  have hB' : 65535 ≤ B := by omega
+/-- `read_code` up to the second pass, shared by the two bounds below: the continuation gets the bytecode, the labels
+after the attributes and the fact that the first pass succeeded on that bytecode -/
+theorem readCode_spec_gen (hB : 65535 ≤ B) (s : Bytes) (hs : s.length ≤ B)
+    (hp2 : ∀ (code : Bytes) (l : Labels), code.length ≤ 65535 →
+      (∃ l0 st l1, (pass1 code.length l0 (Cur.start code) st).1 = .ok l1) →
+      Spec openSites B (pass2 l code.length (Cur.start code)) (fun _ => True)) :
+    Spec openSites B (readCode s) (fun _ => True) := by
   unfold readCode
-  refine Spec.bind (Spec.u16 s) (fun ⟨_, s1⟩ _ => ?_)
-  refine Spec.bind (Spec.u16 s1) (fun ⟨_, s2⟩ _ => ?_)
-  refine Spec.bind (Spec.u32 s2) (fun ⟨cl, s3⟩ _ => ?_)
+  refine Spec.bind (Spec.u16 s) (fun ⟨_, s1⟩ h1 => ?_)
+  refine Spec.bind (Spec.u16 s1) (fun ⟨_, s2⟩ h2 => ?_)
+  refine Spec.bind (Spec.u32 s2) (fun ⟨cl, s3⟩ h3 => ?_)
+  have e3 : s3.length ≤ s.length := by have := h1.1; have := h2.1; have := h3.1; simp only at *; omega
   refine Spec.bind (Spec.guard _) (fun _ hg => ?_)
   have hcl : cl ≤ 65535 := by
     simp only [Bool.and_eq_true, decide_eq_true_eq] at hg
     exact hg.2
-  refine Spec.bind (Labels.new_spec hB' hcl) (fun l _ => ?_)
-  refine Spec.bind (Spec.takeVec s3 (Nat.le_trans hcl hB')) (fun ⟨code, s4⟩ _ => ?_)
-  refine Spec.bind (pass1_spec code.length l (Cur.start code)) (fun l1 _ => ?_)
-  refine Spec.bind (vec16L_spec hB' readException_spec l1 s4) (fun ⟨l2, s5⟩ _ => ?_)
-  refine Spec.bind (Spec.u16 s5) (fun ⟨n, s6⟩ _ => ?_)
-  refine Spec.bind (readCodeAttrs_spec hB' n _ s6) (fun ⟨st, _⟩ _ => ?_)
-  exact pass2_spec hB st.labels code.length (Cur.start code) (WF.start code)
+  refine Spec.bind (Labels.new_spec hB hcl) (fun l _ => ?_)
+  refine Spec.bind (Spec.takeVec s3 (Or.inl (Nat.le_trans hcl hB))) (fun ⟨code, s4⟩ hcode => ?_)
+  have hlen : code.length ≤ 65535 := by have : code.length = cl := hcode.1; omega
+  have e4 : s4.length ≤ s3.length := hcode.2
+  refine Spec.bind (Spec.self (pass1_spec code.length l (Cur.start code))) (fun l1 hp1 => ?_)
+  refine Spec.bind (vec16L_spec hB readException_spec l1 s4) (fun ⟨l2, s5⟩ h5 => ?_)
+  have e5 : s5.length ≤ s4.length := h5
+  refine Spec.bind (Spec.u16 s5) (fun ⟨n, s6⟩ h6 => ?_)
+  have e6 : s5.length = s6.length + 2 := h6.1
+  refine Spec.bind (readCodeAttrs_spec hB n _ s6 (by omega)) (fun ⟨st, _⟩ _ => ?_)
+  obtain ⟨_, st0, hst⟩ := hp1
+  exact hp2 code st.labels hlen ⟨l, st0, l1, hst⟩
 
-theorem codeOp_spec (body : Bytes) : Spec openSites 2147483647 (codeOp body) (fun _ => True) :=
-  readCode_spec (Nat.le_refl _) _
+/-- `read_code` never panics; `alloc` stays below `B` (weak form: the switch capacities of the second pass are only
+known to be below 2^31 here) -/
+theorem readCode_spec (hB : 2147483647 ≤ B) (s : Bytes) (hs : s.length ≤ B) : Spec openSites B (readCode s) (fun _ => True) :=
+  readCode_spec_gen (by omega) s hs (fun code l _ _ => pass2_spec hB l code.length (Cur.start code) (WF.start code))
 
-/-! ## the label counter: 65535 labels are fine, the 65536th overflows -/
+/-! ## the label counter: all 65536 offsets can be labelled (regression of former site 2) -/
 
 theorem or_two_pow (k : Nat) : (2 ^ k - 1) ||| (1 <<< k) = 2 ^ (k + 1) - 1 := by
   apply Nat.eq_of_testBit_eq
@@ -716,37 +810,19 @@ theorem or_two_pow (k : Nat) : (2 ^ k - 1) ||| (1 <<< k) = 2 ^ (k + 1) - 1 := by
   rw [Nat.testBit_or, Nat.testBit_two_pow_sub_one, Nat.testBit_two_pow_sub_one, Nat.one_shiftLeft, Nat.testBit_two_pow]
   by_cases h1 : i < k <;> by_cases h2 : k = i <;> simp [h1, h2] <;> omega
 
-theorem addUnchecked_fresh (cl k : Nat) (st : Acct) (h : k + 1 ≤ 65535) :
+theorem addUnchecked_fresh (cl k : Nat) (st : Acct) :
     Labels.addUnchecked ⟨cl, 2 ^ k - 1, k⟩ k st = (.ok ⟨cl, 2 ^ (k + 1) - 1, k + 1⟩, st) := by
   unfold Labels.addUnchecked Labels.has
-  simp only [Nat.testBit_two_pow_sub_one, Nat.lt_irrefl, decide_false, Bool.false_eq_true, if_false]
-  rw [bnd_apply]
-  simp only [TM.check, decide_eq_true h, if_true, ret_apply, or_two_pow]
+  simp only [Nat.testBit_two_pow_sub_one, Nat.lt_irrefl, decide_false, Bool.false_eq_true, if_false, ret_apply, or_two_pow]
 
-theorem Labels.addRange_new (cl : Nat) (k : Nat) : ∀ (st : Acct), k ≤ 65535 →
+theorem addRange_new (cl : Nat) (k : Nat) : ∀ (st : Acct),
     Labels.addRange ⟨cl, 0, 0⟩ k st = (.ok ⟨cl, 2 ^ k - 1, k⟩, st) := by
   induction k with
-  | zero => intro st _; rfl
+  | zero => intro st; rfl
   | succ k ih =>
-    intro st h
+    intro st
     unfold Labels.addRange
-    rw [bnd_apply, ih st (Nat.le_of_succ_le h)]
-    exact addUnchecked_fresh cl k st h
-
-theorem addUnchecked_full (cl n : Nat) (hn : n = 65535) (st : Acct) :
-    (Labels.addUnchecked ⟨cl, 2 ^ n - 1, n⟩ n st).1 = .panic Sites.labelsMaxId := by
-  unfold Labels.addUnchecked Labels.has
-  simp only [Nat.testBit_two_pow_sub_one, Nat.lt_irrefl, decide_false, Bool.false_eq_true, if_false]
-  rw [bnd_apply]
-  have h : ¬ (n + 1 ≤ 65535) := by omega
-  simp only [TM.check, decide_eq_false h]
-  rfl
-
-/-- the 65536th distinct label: the `u16` id counter overflows (site 2).  (`n` is a variable equal to 65535 only to keep
-the kernel from unfolding `Labels.addRange` 65535 times.) -/
-theorem maxid_overflows (n : Nat) (hn : n = 65535) (st : Acct) :
-    ((Labels.addRange ⟨n, 0, 0⟩ n >>= fun l => l.addUnchecked n) st).1 = .panic Sites.labelsMaxId := by
-  rw [bnd_apply, Labels.addRange_new n n st (by omega)]
-  exact addUnchecked_full n n hn st
+    rw [bnd_apply, ih st]
+    exact addUnchecked_fresh cl k st
 
 end Total.Code
